@@ -767,6 +767,41 @@ class C17(Oracle):
 
 
 # =============================================================================== C03
+def c03_check_roundtrip(pre, post):
+    require(post.text == pre.text, 'roundtrip.text', want=pre.text, got=post.text, rendering=pre.render)
+    for i in range(len(pre.text)):
+        require(codes.eff(post.cells[i]) == codes.eff(pre.cells[i]), 'roundtrip.style', index=i,
+                rendering=pre.render, had=list(pre.cells[i]), got=list(post.cells[i]))
+
+
+def c03_check_simplify(pre, post, r):
+    """Returns False when the style clause was not evaluable (settings outside the numeric grammar)."""
+    require(post.text == pre.text, 'simplify.text', want=pre.text, got=post.text)
+    valid_cells = [tuple(c for c in cell if codes.valid_g(c)) for cell in pre.cells]
+    evaluable = codes.all_wf(valid_cells)
+    if evaluable:
+        for i in range(len(pre.text)):
+            require(codes.all_wf([post.cells[i]]) and codes.eff(post.cells[i]) == codes.eff(valid_cells[i]),
+                    'simplify.style', index=i, had=list(pre.cells[i]), got=list(post.cells[i]))
+    require(r.is_formatting_parsable() is True, 'simplify.parsable_afterwards', value=post.to_json())
+    for i, cell in enumerate(post.cells):
+        for c in cell:
+            require(codes.valid_g(c) and codes.parsable_g(c), 'simplify.only_valid_parsable_settings', index=i,
+                    setting=c)
+    s1 = str(r) if post.kind != A else r.to_str()
+    if post.kind == A:
+        r2 = r.simplify()
+        s2 = r2.to_str()
+    else:
+        r2 = r.copy()
+        r2.simplify()
+        s2 = str(r2)
+    require(s2 == s1, 'simplify.idempotent', first=s1, second=s2)
+    rt = str(AnsiString(s1))
+    require(rt == s1, 'simplify.fixed_point', rendering=s1, reparsed=rt)
+    return evaluable
+
+
 class C03(Oracle):
     prop = 'C03'
     own_kinds = frozenset({'simplify', 'roundtrip'})
@@ -794,40 +829,12 @@ class C03(Oracle):
                 ctx.world.count('skipped:roundtrip_not_wf')
                 return
             _own_preamble(ctx, 'roundtrip')
-            post = ctx.post
-            require(post.text == pre.text, 'roundtrip.text', want=pre.text, got=post.text, rendering=pre.render)
-            for i in range(len(pre.text)):
-                require(codes.eff(post.cells[i]) == codes.eff(pre.cells[i]), 'roundtrip.style', index=i,
-                        rendering=pre.render, had=list(pre.cells[i]), got=list(post.cells[i]))
+            c03_check_roundtrip(pre, ctx.post)
             return
         # simplify
         _own_preamble(ctx, 'simplify')
-        post = ctx.post
-        require(post.text == pre.text, 'simplify.text', want=pre.text, got=post.text)
-        valid_cells = [tuple(c for c in cell if codes.valid_g(c)) for cell in pre.cells]
-        if codes.all_wf(valid_cells):
-            for i in range(len(pre.text)):
-                require(codes.all_wf([post.cells[i]]) and codes.eff(post.cells[i]) == codes.eff(valid_cells[i]),
-                        'simplify.style', index=i, had=list(pre.cells[i]), got=list(post.cells[i]))
-        else:
+        if not c03_check_simplify(pre, ctx.post, ctx.result):
             ctx.world.count('skipped:simplify_style_not_wf')
-        r = ctx.result
-        require(r.is_formatting_parsable() is True, 'simplify.parsable_afterwards', value=post.to_json())
-        for i, cell in enumerate(post.cells):
-            for c in cell:
-                require(codes.valid_g(c) and codes.parsable_g(c), 'simplify.only_valid_parsable_settings', index=i,
-                        setting=c)
-        s1 = str(r) if post.kind != A else r.to_str()
-        if post.kind == A:
-            r2 = r.simplify()
-            s2 = r2.to_str()
-        else:
-            r2 = r.copy()
-            r2.simplify()
-            s2 = str(r2)
-        require(s2 == s1, 'simplify.idempotent', first=s1, second=s2)
-        rt = str(AnsiString(s1))
-        require(rt == s1, 'simplify.fixed_point', rendering=s1, reparsed=rt)
 
     def nontrivial(self, ctx):
         if ctx.kind not in self.own_kinds or ctx.pre is None or ctx.exc is not None:
